@@ -345,6 +345,18 @@ impl Scorer {
     }
 }
 
+#[cfg(feature = "verif-hooks")]
+impl Scorer {
+    pub(crate) fn verif_arrays(&self) -> (Vec<u32>, Vec<u32>, Vec<i32>) {
+        (self.bases.clone(), self.checks.clone(), self.costs.clone())
+    }
+
+    #[cfg(not(target_feature = "avx2"))]
+    pub(crate) fn verif_retrieve(&self, key1: U31, key2: U31) -> Option<i32> {
+        self.retrieve_cost(key1, key2)
+    }
+}
+
 #[cfg(test)]
 mod tests {
     use super::*;
